@@ -503,7 +503,10 @@ DeployEv(e) ==
       retok == IF e.fault_at = 0 THEN e.ret = "count:" \o ToString(Len(e.prog)) ELSE e.ret = "err"
       dir == e.direct
       sameasapi == good /\ ~Broken(dir) /\ Complete(o) = Complete(dir)
-      c14 == (IF ~e.panic THEN {} ELSE {F(e, "C14", "deploying the script panicked")})
+      \* "exactly what the same API calls would do": when the same calls, applied directly to a copy, panic as well (an allocator
+      \* with another - legitimate - id policy running out of ids, say), the panic is not the script's
+      dirpanic == "panicked" \in DOMAIN dir /\ dir.panicked
+      c14 == (IF ~e.panic \/ dirpanic THEN {} ELSE {F(e, "C14", "deploying the script panicked (the same API calls do not)")})
              \cup (IF e.panic \/ retok THEN {} ELSE {F(e, "C14", IF e.fault_at = 0 THEN "a well-formed script failed or returned a wrong count"
                                                                                    ELSE "a malformed command was not rejected with Err")})
              \cup (IF ~good \/ sameasapi THEN {} ELSE {F(e, "C14", "the script's effect differs from the same API calls")})
